@@ -73,6 +73,14 @@ def handle (req : Json) : R Json := do
       match serializeJson [el] [] with
       | .ok j => pure (Json.mkObj [("parse", "ok"), ("r", "ok"), ("json", encVal j), ("elem", encElem el)])
       | .error _ => pure (Json.mkObj [("parse", "ok"), ("r", "err"), ("elem", encElem el)])
+  | "attr_names" => do
+    let tables ← getTables req
+    let names ← (← (← req.getObjVal? "names").getArr?).toList.mapM (·.getStr?)
+    let ci := tables.charInfo
+    pure (Json.mkObj [("attrs", Json.arr (names.map fun n => Json.str (attrName ci Gen.reservedProperties n)).toArray)])
+  | "titles" => do
+    let names ← (← (← req.getObjVal? "names").getArr?).toList.mapM (·.getStr?)
+    pure (Json.mkObj [("titles", Json.arr (names.map fun n => Json.str (titleFormat n)).toArray)])
   | "serialize_json" => do
     let els ← (← (← req.getObjVal? "elements").getArr?).toList.mapM decElem
     let defs ← match getField req "definitions" with
